@@ -1,8 +1,11 @@
+// vcheck is the driver of the deterministic-simulation checks for go-bexpr.
 package main
 
 import (
 	"fmt"
 	"os"
+	"path/filepath"
+	"time"
 )
 
 func main() {
@@ -12,12 +15,25 @@ func main() {
 	os.Exit(code)
 }
 
+func usage() int {
+	fmt.Fprintln(os.Stderr, "usage: vcheck warmup | check <id> [--tier quick|thorough] [--seed N] | replay <file> | selftest | prepare [--keep]")
+	return 2
+}
+
 func realMain(args []string) int {
 	if len(args) == 0 {
-		fmt.Fprintln(os.Stderr, "usage: vcheck warmup | check <id> [--tier quick|thorough] | replay <file> | selftest | prepare")
-		return 2
+		return usage()
 	}
 	switch args[0] {
+	case "warmup":
+		// populate the build cache (std under -race, x/tools) so that checks are fast
+		s, err := prepare(prepOpts{race: true, pure: true})
+		if err != nil {
+			fmt.Fprintln(os.Stderr, "warmup failed:", err)
+			return 2
+		}
+		fmt.Printf("warmup ok: %v\n", s.Timing)
+		return 0
 	case "prepare":
 		s, err := prepare(prepOpts{race: true, pure: true, fidelity: true})
 		if err != nil {
@@ -26,13 +42,55 @@ func realMain(args []string) int {
 		}
 		fmt.Printf("scratch=%s sites=%d store=%d timing=%v\n", s.Dir, s.Report.NSites, s.Report.NStore, s.Timing)
 		fmt.Println("order seams:", s.Report.OrderSeams)
-		fmt.Println("unseamed:", s.Report.Unseamed, "unmodelled:", s.Report.Unmodelled)
+		fmt.Println("unseamed:", s.Report.Unseamed, "unmodelled:", s.Report.Unmodelled, "modelled:", s.Report.Modelled)
 		if len(args) > 1 && args[1] == "--keep" {
 			cleanupMu.Lock()
 			cleanupDir = nil
 			cleanupMu.Unlock()
 		}
 		return 0
+	case "check":
+		return runCheck(args[1:])
+	case "replay":
+		if len(args) < 2 {
+			return usage()
+		}
+		return runReplay(args[1])
+	case "selftest":
+		return runSelftest(args[1:])
 	}
+	return usage()
+}
+
+// runReplay rebuilds from the current tree and re-executes one replay file in
+// a fresh process: exit 1 + VIOLATION line if it reproduces, 0 if not.
+func runReplay(path string) int {
+	v, err := readReplay(path)
+	if err != nil {
+		fmt.Fprintln(os.Stderr, "cannot read replay file:", err)
+		return 2
+	}
+	abs, _ := filepath.Abs(path)
+	c := &checkCtx{ID: v.Property, Tier: "quick", Seed: v.Seed, Root: verifRoot(), T0: time.Now()}
+	s, err := prepare(prepOpts{race: true, pure: true})
+	if err != nil {
+		fmt.Fprintln(os.Stderr, "INFRA: cannot build the instrumented copy / workers:", err)
+		return 2
+	}
+	c.S = s
+	defer s.Remove()
+	ok, info := c.confirm(v)
+	fmt.Println(tail(info, 8000))
+	if ok {
+		fmt.Printf("VIOLATION property=%s replay=%s\n", v.Property, abs)
+		fmt.Printf("  kind=%s key=%s\n  %s\n", v.Kind, v.Key, v.Detail)
+		return 1
+	}
+	fmt.Printf("replay of %s did not reproduce the violation on the current tree\n", abs)
+	return 0
+}
+
+func runSelftest(args []string) int {
+	fmt.Fprintln(os.Stderr, "selftest: not built yet")
 	return 2
 }
